@@ -7,6 +7,26 @@ use vrt::{json, Value};
 use crate::obj::Obj;
 use crate::{emit, finish_run, fresh_id, me, new_exec, take_free_log, Mailboxes, RunResult};
 
+thread_local! {
+    /// set by op "acqr": the next instance factory that runs on this thread re-enters acquire() on the same wrapper
+    static NEST_ARMED: std::cell::Cell<bool> = const { std::cell::Cell::new(false) };
+    /// how to do that for the wrapper type of this task; returns (reference id, the reference), which the factory KEEPS
+    static NEST_FN: std::cell::RefCell<Option<std::rc::Rc<dyn Fn() -> (u32, Box<dyn std::any::Any>)>>> = const { std::cell::RefCell::new(None) };
+    static NEST_OUT: std::cell::RefCell<Vec<(u32, Box<dyn std::any::Any>)>> = const { std::cell::RefCell::new(Vec::new()) };
+}
+
+/// Called from the instance factory (InstCell::new): a re-entrant acquire on the same wrapper, once, if armed.
+pub fn maybe_reenter() {
+    if !NEST_ARMED.with(|a| a.replace(false)) {
+        return;
+    }
+    let f = NEST_FN.with(|f| f.borrow().clone());
+    if let Some(f) = f {
+        let got = f();
+        NEST_OUT.with(|o| o.borrow_mut().push(got));
+    }
+}
+
 fn ops_of(st: &Value) -> Vec<Vec<Vec<Value>>> {
     st["progs"].as_array().unwrap().iter().map(|p| p.as_array().unwrap().iter().map(|o| o.as_array().unwrap().clone()).collect()).collect()
 }
@@ -16,11 +36,28 @@ macro_rules! program_runner {
         fn $name(w: $wrapper, prog: Vec<Vec<Value>>, mail: Mailboxes<$refty>) {
             let t = me() as usize;
             let mut held: Vec<(u32, $refty)> = Vec::new();
+            {
+                let wn = w.clone();
+                NEST_FN.with(|f| {
+                    *f.borrow_mut() = Some(std::rc::Rc::new(move || {
+                        let r = wn.acquire();
+                        let id = fresh_id();
+                        emit(json!({"ev":"acquire","t":me(),"ref":id,"inst":r.id(),"born":r.born(),"fam":r.fam()}));
+                        (id, Box::new(r) as Box<dyn std::any::Any>)
+                    }))
+                });
+            }
             for op in prog {
                 match op[0].as_str().unwrap() {
-                    "acq" => {
+                    "acq" | "acqr" => {
                         sched::point("op:acq");
+                        NEST_ARMED.with(|a| a.set(op[0].as_str() == Some("acqr")));
                         let r = w.acquire();
+                        NEST_ARMED.with(|a| a.set(false));
+                        // references the factory obtained re-entrantly and kept: this thread holds them from now on
+                        for (nid, b) in NEST_OUT.with(|o| std::mem::take(&mut *o.borrow_mut())) {
+                            held.push((nid, *b.downcast::<$refty>().expect("nested reference type")));
+                        }
                         let id = fresh_id();
                         emit(json!({"ev":"acquire","t":t,"ref":id,"inst":r.id(),"born":r.born(),"fam":r.fam()}));
                         held.push((id, r));
@@ -68,6 +105,7 @@ macro_rules! program_runner {
                 drop(r);
                 emit(json!({"ev":"drop_end","t":t,"ref":id}));
             }
+            NEST_FN.with(|f| *f.borrow_mut() = None);
             drop(w);
         }
     };
@@ -94,6 +132,11 @@ impl Clone for Local {
     }
 }
 struct LocalWrapper(linked::InstancePerThread<Obj>);
+impl Clone for LocalWrapper {
+    fn clone(&self) -> Self {
+        LocalWrapper(self.0.clone())
+    }
+}
 impl LocalWrapper {
     fn acquire(&self) -> Local {
         Local(self.0.acquire())
